@@ -343,6 +343,7 @@ func genShadowK(r *rand.Rand, regOnly bool, retShadow bool) cpuCase {
 	if !regOnly {
 		g.prologue(1)
 	}
+	far := g.label() // placed before the final body: the target of wrong-path jumps that differ from the branch target
 	n := 1 + r.Intn(3)
 	for k := 0; k < n && g.nInstr < 200; k++ {
 		g.body(r.Intn(3), false)
@@ -384,7 +385,7 @@ func genShadowK(r *rand.Rand, regOnly bool, retShadow bool) cpuCase {
 		// the shadow: never executed architecturally
 		sh := 1 + r.Intn(4)
 		for i := 0; i < sh; i++ {
-			pick := r.Intn(9)
+			pick := r.Intn(11)
 			if regOnly {
 				pick = []int{0, 1, 5, 8, 0, 1, 9}[r.Intn(7)]
 			}
@@ -411,12 +412,15 @@ func genShadowK(r *rand.Rand, regOnly bool, retShadow bool) cpuCase {
 				g.emit("j nowhere")
 			case 9:
 				g.emit("ret")
+			case 10:
+				g.emit("j %s", far)
 			default:
 				g.emit("beqz zero, %s", l)
 			}
 		}
 		g.place(l)
 	}
+	g.place(far)
 	g.body(1+r.Intn(3), false)
 	if r.Intn(2) == 0 {
 		g.emit("ret")
